@@ -29,10 +29,7 @@ def handle (line : String) : String :=
       match parse tokens with
       | .error e => "reject:" ++ e.token
       | .ok rs =>
-        let bits := ints.map fun i => match matchInt rs i with
-          | some true => "1"
-          | some false => "0"
-          | none => "U"
+        let bits := ints.map fun i => if matchInt rs i then "1" else "0"
         "ok " ++ renderDump (dump rs) ++ " " ++ (if bits.isEmpty then "-" else String.join bits)
     | _, _ => "bad-op"
   | _ => "bad-op"
